@@ -206,7 +206,12 @@ class Unit:
         # Parse a text unit representation using sympy's parser
         elif isinstance(unit_expr, (str, bytes)):
             if isinstance(unit_expr, bytes):
-                unit_expr = unit_expr.decode("utf-8")
+                try:
+                    unit_expr = unit_expr.decode("utf-8")
+                except UnicodeDecodeError as e:
+                    raise UnitParseError(
+                        f"Unit representation {unit_expr!r} is not valid utf-8: {e}"
+                    )
 
             # this cache substantially speeds up unit conversions; it holds
             # what the registry says about a string, so a unit that is given
